@@ -14,7 +14,8 @@
 From PM Require Import Model.Prelude Model.Domain Model.Automaton
   Model.Traversal Model.Matchers Model.DomString
   Cert.LabCheck Cert.WinCheck Proofs.AbsEquiv Proofs.StringExact Proofs.StringSingle
-  Model.DomPGKeys Model.DomPG Cert.PGCert Proofs.PGComplete Model.DomMatrix Proofs.MatrixExact Proofs.MatrixSingle.
+  Model.DomPGKeys Model.DomPG Cert.PGCert Proofs.PGComplete Model.DomMatrix Proofs.MatrixExact Proofs.MatrixSingle
+  Model.Matchers Model.DomPGPattern Cert.WfCheck Proofs.PGSingleGood Proofs.PGAgree.
 
 Theorem c03_accepts_iff_constraints :
   forall (K V M H P : Type) (D : DomOps K V M H P), DomEq D ->
@@ -93,8 +94,43 @@ Theorem c03_portgraph_accepts_iff_constraints :
     (aaccepts (pgval h m) A (N.of_nat i) <-> forall c, In c cp -> pgval h m c = true).
 Proof. exact pg_accepts_iff. Qed.
 
+(** Port graphs, where the property does hold (in general it is refuted, see C04):
+    on good patterns ([pg_good_pattern]; the root on a link) the automaton and
+    SinglePatternMatcher report the same matches, bindings included - what the
+    baseline reports, every complete automaton over single-root keys reports with
+    the same values on its recorded keys; what a sound automaton reports, the
+    baseline reports with the same values on every key of the pattern. *)
+Theorem c03_portgraph_single_then_many_on_single_root_sets :
+  forall (P : pghost) (root : N) cs nk (H : pghost) fuel1 r1 m1
+         (A2 : automaton pgkey pgpred) rk2 ids2 css2 pres2 i2 fuel2 ms2,
+    pg_cvec_full P root = Ok (cs, nk) -> lines_cover P root = true -> lines_sound P root = true ->
+    nodes_keyed P nk = true -> keys_distinct nk = true -> pg_good_pattern P root cs nk = true ->
+    root_linked P root = true -> pg_host_wfb P = true -> pg_host_wfb H = true ->
+    single pg_dom fuel1 cs H = Ok r1 -> In m1 r1 ->
+    wf_check pg_dom A2 rk2 ids2 = true -> cert_complete pg_entails pg_refutes A2 css2 pres2 = true ->
+    nth_error css2 i2 = Some cs -> nth_error pres2 i2 = Some true ->
+    aut_single_root A2 = true -> match_keys_in nk A2 (N.of_nat i2) = true ->
+    run pg_dom fuel2 A2 H = Ok ms2 ->
+    exists st keys b2, In st (au_states A2) /\ In (N.of_nat i2, keys) (a_matches st) /\ In (N.of_nat i2, b2) ms2
+      /\ forall k, In k keys -> pgget b2 k = pgget m1 k.
+Proof. exact pg_single_then_run. Qed.
+
+Theorem c03_portgraph_many_then_single_on_good_patterns :
+  forall (P : pghost) (root : N) cs nk (H : pghost)
+         (A1 : automaton pgkey pgpred) (L1 : labelling) css1 i1 fuel1 ms1 b1 fuel2 r2,
+    pg_cvec_full P root = Ok (cs, nk) -> lines_cover P root = true -> lines_sound P root = true ->
+    nodes_keyed P nk = true -> keys_distinct nk = true -> pg_good_pattern P root cs nk = true ->
+    root_linked P root = true -> pg_host_wfb P = true -> pg_host_wfb H = true ->
+    lab_ok pg_dom (fun _ => true) pg_atoms A1 L1 css1 = true -> nth_error css1 i1 = Some cs ->
+    run pg_dom fuel1 A1 H = Ok ms1 -> In (N.of_nat i1, b1) ms1 ->
+    single pg_dom fuel2 cs H = Ok r2 ->
+    exists m2, In m2 r2 /\ forall u k, In (u, k) nk -> pgget m2 k = pgget b1 k.
+Proof. exact pg_run_then_single. Qed.
+
 Print Assumptions c03_accepts_iff_constraints.
 Print Assumptions c03_portgraph_accepts_iff_constraints.
 Print Assumptions c03_string_many_equals_naive.
 Print Assumptions c03_matrix_many_equals_naive.
 Print Assumptions c04_c06_certified_automata_agree.
+Print Assumptions c03_portgraph_single_then_many_on_single_root_sets.
+Print Assumptions c03_portgraph_many_then_single_on_good_patterns.
